@@ -6,6 +6,8 @@ import (
 	"sort"
 	"strings"
 
+	"github.com/influxdata/kapacitor/models"
+
 	"verifharness/kit"
 )
 
@@ -94,6 +96,35 @@ func genGid(r *kit.Rand) []string {
 		ls = append(ls, gidLine(byName, "m", []string{"a"}, map[string]string{"a": v, "zz": "1"}))
 		ls = append(ls, gidLine(byName, "cpu", []string{"a"}, map[string]string{"a": v, "zz": "2"}))
 		ls = append(ls, gidLine(byName, "m", []string{"a"}, map[string]string{"a": v}))
+	case 7, 8: // black-box collision search: re-split the id the IMPLEMENTATION gave to a point at every other
+		// place where "<dim>=" occurs, and ask for the ids of the points so obtained
+		d1, d2 := kit.Pick(r, []string{"a", "a=b", "h st"}), kit.Pick(r, []string{"b", "c", "é"})
+		frag := []string{"x", "", "y", d2 + "=", "x" + d2 + "=y", "," + d2 + "=", "x," + d2 + "=y", d2 + "=y", "=", ","}
+		v1 := kit.Pick(r, frag) + kit.Pick(r, frag)
+		v2 := kit.Pick(r, frag) + kit.Pick(r, frag)
+		dims := []string{d1, d2}
+		ls = append(ls, gidLine(byName, name, dims, map[string]string{d1: v1, d2: v2}))
+		id := string(models.ToGroupID(name, map[string]string{d1: v1, d2: v2}, models.Dimensions{ByName: byName, TagNames: dims}))
+		body := id
+		if byName {
+			body = strings.TrimPrefix(body, name+"\n")
+		}
+		seen := map[string]bool{v1 + "\x00" + v2: true}
+		if strings.HasPrefix(body, d1+"=") {
+			rest := body[len(d1)+1:]
+			for j := 0; j+len(d2)+1 <= len(rest) && len(ls) < 6; j++ {
+				if !strings.HasPrefix(rest[j:], d2+"=") {
+					continue
+				}
+				w2 := rest[j+len(d2)+1:]
+				for _, w1 := range []string{rest[:j], strings.TrimSuffix(rest[:j], ",")} {
+					if !seen[w1+"\x00"+w2] {
+						seen[w1+"\x00"+w2] = true
+						ls = append(ls, gidLine(byName, name, dims, map[string]string{d1: w1, d2: w2}))
+					}
+				}
+			}
+		}
 	default: // random keys over the adversarial pools, same or different dimension lists
 		n := r.Range(2, 4)
 		nd := r.Range(1, 3)
